@@ -152,7 +152,7 @@ def run_shard(spec, acc):
             claims[s] = [hist.claim_name(hist.pick_unique_number(rng), rng.choice(MFRS), inst_lo=rng.randrange(7), inst_hi=rng.randrange(30),
                                          function=rng.choice([130, 140, 150]), dev_class=rng.choice([25, 60, 75]),
                                          sys_inst=rng.randrange(14), industry=rng.choice([4, 0, 1]), aac=rng.randrange(2))
-                         for _ in range(2)] + ([shared] if s in (10, 20) else [])
+                         for _ in range(2)] + ([shared] if s in sources[:2] else [])
         # re-claims that differ from an earlier NAME in a single sub-field only (same unique number, other
         # manufacturer / instance / function / class / system instance / industry / capability bit)
         for sx in sources:
